@@ -5,8 +5,9 @@ by a shim so that the generated encoder can be applied to the same bytes.
 
 payload: {'sizes': [n, ...]}      objects whose pickle has roughly n bytes
 result:  {'cases': [{'fn': 'message.send'|'Worker._send', 'payload_len': n,
-                     'payload': hex (when short), 'written': [hex of the first 4 + n bytes ...],
-                     'pieces': k, 'exc': name|None}]}
+                     'payload': hex (when short), 'written': [hex of everything written, in order
+                     (the first 4 bytes only when the payload is long)], 'written_len': [total],
+                     'pieces': number of write calls, 'exc': name|None}]}
 '''
 import logging
 
@@ -36,8 +37,8 @@ def record(fn, dumped, sink, exc):
     short = len(p) <= 128
     return {'fn': fn, 'payload_len': len(p), 'payload': p.hex() if short else None,
             'ndumped': len(dumped), 'pieces': len(sink.w),
-            'written': [(b if short else b[:4]).hex() for b in sink.w],
-            'written_len': [len(b) for b in sink.w], 'exc': exc}
+            'written': [(b''.join(sink.w) if short else b''.join(sink.w)[:4]).hex()],
+            'written_len': [sum(len(b) for b in sink.w)], 'exc': exc}
 
 
 out = []
